@@ -75,7 +75,7 @@ ASSUMPTIONS = [
     "in real mode all field data are real, conj is the identity",
 ]
 BUDGET = {"quick": 45, "thorough": 420}
-NCASES = {"quick": 2400, "thorough": 40000}
+NCASES = {"quick": 4000, "thorough": 60000}
 CASE_TIMEOUT = 40.0
 FLOORS = {
     "quick": {"case_held": 250, "held_lhs": 200, "held_rhs": 200, "held_functional": 250, "held_lhs_minus_rhs": 100,
@@ -249,7 +249,7 @@ def affine_image(rng, G, u, fu, cplx):
     """An expression that is affine (not linear) in the argument-like expression u, written in some disguise."""
     n_choices = ["sum", "sum", "variable", "scaled", "division", "nested"]
     if len(u.ufl_shape) == 1 and u.ufl_shape[0] <= 4:
-        n_choices += ["list", "component_tensor"]
+        n_choices += ["list", "component_tensor", "list_zero"]
     if cplx:
         n_choices += ["conjconj"]
     k = rng.choice(n_choices)
@@ -266,6 +266,9 @@ def affine_image(rng, G, u, fu, cplx):
         return k, (u + 0.5 * fu) + (fu - 3 * u)
     if k == "list":
         return k, ufl.as_vector([u[j] + fu[j] for j in range(u.ufl_shape[0])])
+    if k == "list_zero":
+        n = u.ufl_shape[0]
+        return k, ufl.as_vector([u[j] + fu[j] for j in range(n - 1)] + [ufl.as_ufl(0)]) if n > 1 else ufl.as_vector([u[0] - fu[0]])
     if k == "component_tensor":
         i = ufl.Index()
         return k, ufl.as_tensor(u[i] + 2 * fu[i], (i,))
@@ -382,6 +385,14 @@ def build(rng, family, cell, gdim, cplx):
                 if rng.random() < 0.3:
                     integrand = integrand + term(G, rng, d, vi, uj)
                 detail = kind + ":term"
+            if rng.random() < 0.12:
+                c_ = U.const((), 0)
+                integrand = integrand / (3 + (c_ * c_ if not cplx else ufl.real(c_ * ufl.conj(c_))))
+                detail += "/div"
+            if cplx and rng.random() < 0.15:
+                wrap = rng.choice(["conj", "real", "imag"])
+                integrand = getattr(ufl, wrap)(integrand)
+                detail += "/" + wrap
             if kind == "aL":
                 # u appears through an affine image; for sub-functions of a mixed argument the whole argument is replaced
                 utop = uj if family != "split" else base.arg(sp.note["spaces"][1], 1)
@@ -560,7 +571,7 @@ def check_parts(ctx, sp, F, wss, fields, tag=""):
     def M(ws, B):
         return PF("00", ws, B)
 
-    has_M = nonzero(M, wss[0])
+    has_M = any(k.split(":")[0] in ("M", "gat") for k in sp.kinds()) or any(nonzero(M, ws) for ws in wss)
     skey = shape_key(sp) + tag
     ok_l, l = call(ctx, "lhs", lambda: lhs(F))
     ok_r, r = call(ctx, "rhs", lambda: rhs(F))
@@ -679,14 +690,18 @@ def check_action(ctx, sp, F, wss, fields, rng):
     if given is None:
         old = set(F.coefficients())
         new = [c for c in out.coefficients() if c not in old]
-        cands = []
-        for perm in itertools.permutations(new, len(hi)) if len(new) <= 4 else []:
-            if all(c.ufl_function_space() == a.ufl_function_space() for c, a in zip(perm, hi)):
-                cands.append(dict(zip(hi, perm)))
-        if not cands:
+        # per replaced argument: the new coefficients living in its space; an argument whose image vanished from
+        # the result (e.g. grad of a piecewise constant) is represented by a fresh field (the value cannot depend on it)
+        options = []
+        for a_ in hi:
+            m = [c for c in new if c.ufl_function_space() == a_.ufl_function_space()]
+            options.append(m or [ufl.Coefficient(a_.ufl_function_space())])
+        cands = [dict(zip(hi, combo)) for combo in itertools.islice(itertools.product(*options), 24) if len(set(combo)) == len(combo)]
+        unmatched = [c for c in new if not any(c.ufl_function_space() == a_.ufl_function_space() for a_ in hi)]
+        if unmatched or not cands:
             ctx.count("action_auto_new_coefficient_not_identified")
             ctx.violation(f"C16/action/{sp.family}/auto-coefficient-not-in-argument-space",
-                          "action(F) did not introduce one new coefficient per replaced argument in that argument's space",
+                          "action(F) introduced a new coefficient that is in none of the replaced arguments' spaces",
                           {"form": safe_str(F, 800), "result": safe_str(out, 800)})
             return "violated"
         candidates = cands
@@ -709,8 +724,18 @@ def check_action(ctx, sp, F, wss, fields, rng):
             ctx.count("nontrivial")
             ctx.count("nontrivial_action")
     if o.verdict == "violated":
-        report(ctx, sp, "action", mode + "/" + shape_key(sp), o, "Phi(action(F, f)) differs from Phi(F) with its last argument := f", out,
-               "Phi(F)[highest-numbered arguments := f]")
+        sub = mode + "/" + shape_key(sp)
+        # degenerate input: F.arguments() lists the replaced arguments, but the value of F does not depend on them
+        # (they occur only in terms that vanish identically, e.g. the second derivative of a functional linear in w)
+        try:
+            CD = Cache(F, {"q": {**sub_rest, **lin(fields, hi, [(1, 0)])}, "0": {**sub_rest, **lin(fields, hi, [])}})
+            if all(abs(complex(CD("q", ws, CB).arr) - complex(CD("0", ws, CB).arr)) <= 1e-9 * max(1.0, CD("q", ws, CB).maxabs) for ws in wss):
+                sub = "replaced-argument-only-in-vanishing-terms"
+        except Exception:
+            pass
+        report(ctx, sp, "action", sub, o, "Phi(action(F, f)) differs from Phi(F) with its last argument := f", out,
+               "Phi(F)[highest-numbered arguments := f]", {"F.arguments()": [str(x) for x in F.arguments()], "mode": mode,
+                                                          "derivatives_expanded": expanded})
     return o.verdict
 
 
@@ -819,13 +844,13 @@ def check_energy_norm(ctx, sp, a, wss, fields, rng):
     if f is None:
         old = set(a.coefficients())
         new = [c for c in out.coefficients() if c not in old]
-        new = [c for c in new if c.ufl_function_space() == uargs[0].ufl_function_space()]
-        if len(new) != 1:
+        if any(c.ufl_function_space() != uargs[0].ufl_function_space() for c in new) or len(new) > 1:
             ctx.violation(f"C16/energy_norm/{sp.family}/auto-coefficient-not-in-argument-space",
-                          "energy_norm(a) did not introduce exactly one new coefficient in the argument space",
+                          "energy_norm(a) introduced new coefficients other than one in the argument space",
                           {"form": safe_str(a, 800), "result": safe_str(out, 800)})
             return "violated"
-        f = new[0]
+        # no new coefficient: the substituted terms vanished from the result; any field must then give the same value
+        f = new[0] if new else ufl.Coefficient(uargs[0].ufl_function_space())
     sub_a = {x: ("expr", f) for x in vargs + uargs}
     CA = Cache(a, {"x": sub_a})
     CO = Cache(out, {"x": {}})
